@@ -14,6 +14,7 @@
 #include <iterator>
 #include <cstdlib>
 #include <unistd.h>
+#include "hexasm.hpp"
 #include "hexsim.hpp"
 struct HexVerifAccess { static uint32_t *memory(hexsim::Processor &p) { return p.memory.data(); } static size_t words() { return hexsim::Processor::MEMORY_SIZE_WORDS; } };
 
@@ -36,6 +37,7 @@ void operator delete[](void *p) noexcept { free(p); }
 void operator delete(void *p, size_t) noexcept { free(p); }
 void operator delete[](void *p, size_t) noexcept { free(p); }
 
+static bool g_trace = false;
 static int runOn(uint8_t fill, const std::string &file, size_t maxCycles, std::string &out) {
   g_fill = fill; g_fill_on = true;
   struct Off { ~Off() { g_fill_on = false; } } off;
@@ -43,6 +45,7 @@ static int runOn(uint8_t fill, const std::string &file, size_t maxCycles, std::s
   memset(raw, fill, sizeof(hexsim::Processor));
   std::istringstream in; std::ostringstream os;
   hexsim::Processor *p = new (raw) hexsim::Processor(in, os, maxCycles);
+  p->setTracing(g_trace);
   p->load(file.c_str());
   int rc = p->run();
   out = os.str();
@@ -138,11 +141,26 @@ int main(int argc, char **argv) {
      0x01, 0x61, 0x11, 0x82, 0x30, 0xD3};                                  // exit(mem[sp+1])
   std::string f7 = writeImage("p7.bin", p7);
   int a7 = runOn(0xA5, f7, 1000, o), b7 = runOn(0x00, f7, 1000, o), c7 = runOn(0x5C, f7, 1000, o);
+  // (8) trace text of a program WITH debug symbols (three procedures, execution passes through the last one): the same
+  //     bytes whatever the heap held before (every block handed out is pre-filled with the given pattern)
+  std::string t8a, t8b, t8c; int a8 = 0, b8 = 0, c8 = 0; bool asm8 = false;
+  try {
+    hexasm::Lexer lexer; hexasm::Parser parser(lexer);
+    lexer.loadBuffer("BR start\nDATA 100\nPROC one\nLDAC 1\nOPR BRB\nFUNC two\nLDAC 2\nOPR BRB\nPROC last\nLDAC 3\nstart\nLDBM 1\nLDAC 5\nSTAI 2\nLDAC 0\nOPR SVC\n");
+    auto program = parser.parseProgram(); hexasm::CodeGen cg(program); cg.emitBin("p8.bin"); asm8 = true;
+  } catch (std::exception &) {}
+  if (asm8) {
+    alarm(60); g_phase = "a traced run of a program with debug symbols";
+    g_trace = true;
+    a8 = runOn(0xA5, "p8.bin", 1000, t8a); b8 = runOn(0x00, "p8.bin", 1000, t8b); c8 = runOn(0x5C, "p8.bin", 1000, t8c);
+    g_trace = false;
+  }
   // (5) every word outside the loaded image is zero after construction over dirty storage + load (whole array scanned)
   long s5 = scanOn(0xA5, f1, (p1.size() + 3) / 4);
   std::string why;
   if (a6 != b6 || a6 != c6 || a6 != 'a') why = "a byte read from a stream file (simin1 = 'a') depends on host memory: exit values " + std::to_string(a6) + ", " + std::to_string(b6) + ", " + std::to_string(c6) + " over 0xA5 / 0x00 / 0x01 storage";
   else if (a7 != b7 || a7 != c7 || a7 != 255) why = "a read at the end of a stream file does not deliver 255 or depends on host memory: exit values " + std::to_string(a7) + ", " + std::to_string(b7) + ", " + std::to_string(c7);
+  else if (asm8 && (t8a != t8b || t8a != t8c || a8 != b8 || a8 != c8)) why = "the -t output of a program with debug symbols depends on what the heap held before (pre-fill 0xA5 / 0x00 / 0x5C give different text)";
   else if (lim_off != lim_on) why = "a run cut short by --max-cycles returns a different status with tracing on";
   else if (s5 >= 0) why = "memory word " + std::to_string(s5) + " outside the loaded image is not zero after construction over dirty storage (reads of it depend on host memory)";
   else if (threw || t_off != t_on || e_off != e_on || c_off != c_on) why = "enabling tracing changes exit value, echoed bytes or input consumption of a program using the read call";
